@@ -4,6 +4,7 @@ import (
 	"errors"
 	iofs "io/fs"
 	goos "os"
+	"syscall"
 	"time"
 
 	"github.com/hack-pad/hackpadfs"
@@ -118,11 +119,56 @@ func VerifC09Methods() {
 		}
 		return
 	}
+	if verifSymbolic() && verifParam("OSARGS") != 0 {
+		// (engine-only harness variant: the OS stub's call log does not exist natively)
+		// every OS call made for a valid name uses the OS path of the caller's names, in the caller's order
+		want0, e0 := fs.ToOSPath(name)
+		verifAssert(e0 == nil, "ToOSPath of a valid name failed")
+		want1 := ""
+		if twoNames {
+			w, e1 := fs.ToOSPath(other)
+			verifAssert(e1 == nil, "ToOSPath of a valid name failed")
+			want1 = w
+		}
+		for i := before; i < verifOSCalls(); i++ {
+			verifAssert(verifOSCallArg(i, 0) == want0, "an OS call did not receive the OS path of the caller's name")
+			if twoNames {
+				verifAssert(verifOSCallArg(i, 1) == want1, "an OS call did not receive the OS path of the caller's second name")
+			}
+		}
+	}
 	if err == nil {
 		verifReach("os-ok")
 		return
 	}
 	verifReach("os-error")
+	// the error class of the OS survives the translation: an errno matches the sentinel of the same name
+	var pathErr *hackpadfs.PathError
+	var linkErr *hackpadfs.LinkError
+	var cause error
+	if errors.As(err, &pathErr) {
+		cause = pathErr.Err
+	} else if errors.As(err, &linkErr) {
+		cause = linkErr.Err
+	}
+	if en, ok := cause.(syscall.Errno); ok {
+		switch en {
+		case syscall.EINVAL:
+			verifAssert(errors.Is(err, hackpadfs.ErrInvalid), "an OS failure with EINVAL does not match ErrInvalid")
+		case syscall.ENOENT:
+			verifAssert(errors.Is(err, hackpadfs.ErrNotExist), "an OS failure with ENOENT does not match ErrNotExist")
+		case syscall.EEXIST:
+			verifAssert(errors.Is(err, hackpadfs.ErrExist), "an OS failure with EEXIST does not match ErrExist")
+		case syscall.ENOTDIR:
+			verifAssert(errors.Is(err, hackpadfs.ErrNotDir), "an OS failure with ENOTDIR does not match ErrNotDir")
+		case syscall.EISDIR:
+			verifAssert(errors.Is(err, hackpadfs.ErrIsDir), "an OS failure with EISDIR does not match ErrIsDir")
+		case syscall.ENOTEMPTY:
+			verifAssert(errors.Is(err, hackpadfs.ErrNotEmpty), "an OS failure with ENOTEMPTY does not match ErrNotEmpty")
+		case syscall.EACCES, syscall.EPERM:
+			verifAssert(errors.Is(err, hackpadfs.ErrPermission), "an OS failure with EACCES/EPERM does not match ErrPermission")
+		}
+	}
 	if twoNames {
 		le, ok := err.(*hackpadfs.LinkError)
 		verifAssert(ok, "Rename/Symlink failure must be a *hackpadfs.LinkError")
